@@ -22,6 +22,7 @@ import (
 	codectypes "github.com/cosmos/cosmos-sdk/codec/types"
 	sdk "github.com/cosmos/cosmos-sdk/types"
 	"github.com/palomachain/paloma/v2/verifharness/emit"
+	"github.com/palomachain/paloma/v2/x/consensus/keeper/consensus"
 	consensustypes "github.com/palomachain/paloma/v2/x/consensus/types"
 	evmtypes "github.com/palomachain/paloma/v2/x/evm/types"
 	metrixtypes "github.com/palomachain/paloma/v2/x/metrix/types"
@@ -972,3 +973,100 @@ func doOverflowWitness(t *testing.T, run *emit.Run, p *pool) {
 }
 
 var _ = sdk.ValAddress{}
+
+// ---------- a pending valset update behind a backlog of more than one page ----------
+
+// doBacklogValset: 1001..1030 messages of another validator, THEN a pending valset update, THEN messages of the
+// polling validator.  Through the real query servers: nothing queued behind the valset update may be offered for
+// relay or for gas estimation, however long the backlog in front of it is.
+func doBacklogValset(t *testing.T, run *emit.Run, p *pool, r *rand.Rand) {
+	e := newEnv(t, 5, 1700000000)
+	chain := chains[0]
+	qn := turnstoneQueue(chain)
+	e.vs.snap = &valsettypes.Snapshot{Id: 1, TotalShares: sdkmath.NewInt(2), Validators: []valsettypes.Validator{
+		{Address: p.addrs[0], ShareCount: sdkmath.NewInt(1)}, {Address: p.addrs[1], ShareCount: sdkmath.NewInt(1)}}}
+	put := func(asg int, valset bool, opts *consensus.PutOptions) uint64 {
+		m := &evmtypes.Message{ChainReferenceID: chain, TurnstoneID: "t", Assignee: p.strs[asg], AssigneeRemoteAddress: remotes[asg],
+			Action: &evmtypes.Message_UploadSmartContract{UploadSmartContract: &evmtypes.UploadSmartContract{Id: 1}}}
+		if valset {
+			m.Action = &evmtypes.Message_UpdateValset{UpdateValset: &evmtypes.UpdateValset{Valset: &evmtypes.Valset{ValsetID: 7}}}
+		}
+		id, err := e.cons.PutMessageInQueue(e.ctx, qn, m, opts)
+		if err != nil {
+			t.Fatal(err)
+		}
+		return id
+	}
+	n := 1001 + r.Intn(30)
+	for j := 0; j < n; j++ {
+		put(1, false, nil)
+	}
+	est := &consensus.PutOptions{RequireSignatures: true, RequireGasEstimation: true}
+	vu := put(1, true, est)
+	m1 := put(0, false, nil)
+	m2 := put(0, false, est)
+	blocks := []string{
+		emit.Pair(emit.ZI(int64(n)), "(OpPut (KEvm AOther) 1 false false)"),
+		emit.Pair("1", "(OpPut (KEvm AUpdateValset) 1 true false)"),
+		emit.Pair("1", "(OpPut (KEvm AOther) 0 false false)"),
+		emit.Pair("1", "(OpPut (KEvm AOther) 0 true false)"),
+	}
+	replay := map[string]any{"kind": "backlog-valset", "backlog": n, "valset-update": vu, "later": []uint64{m1, m2}}
+	poll := func() (relay, estim []uint64) {
+		rr, err := e.cons.QueuedMessagesForRelaying(e.ctx, &consensustypes.QueryQueuedMessagesForRelayingRequest{QueueTypeName: qn, ValAddress: p.addrs[0]})
+		if err != nil {
+			t.Fatal(err)
+		}
+		for _, m := range rr.Messages {
+			relay = append(relay, m.Id)
+		}
+		kr, err := e.cons.GetMessagesForRelaying(e.ctx, qn, p.addrs[0])
+		if err != nil {
+			t.Fatal(err)
+		}
+		if len(kr) != len(relay) {
+			run.Violate("C14:query-server-differs", fmt.Sprintf("QueuedMessagesForRelaying returned %d messages, the keeper %d", len(relay), len(kr)), replay)
+		}
+		ge, err := e.cons.QueuedMessagesForGasEstimation(e.ctx, &consensustypes.QueryQueuedMessagesForGasEstimationRequest{QueueTypeName: qn, ValAddress: p.addrs[0]})
+		if err != nil {
+			t.Fatal(err)
+		}
+		for _, m := range ge.MessagesToEstimate {
+			estim = append(estim, m.Id)
+		}
+		return
+	}
+	relay, estim := poll()
+	for _, id := range relay {
+		if id > vu {
+			run.Violate("C14:offer-ahead-of-valset", fmt.Sprintf("message %d offered ahead of older valset update %d (which sits behind a backlog of %d messages)", id, vu, n), replay)
+		}
+	}
+	for _, id := range estim {
+		if id > vu {
+			run.Violate("C14:estimation-ahead-of-valset", fmt.Sprintf("message %d handed out for gas estimation ahead of older valset update %d (behind a backlog of %d messages)", id, vu, n), replay)
+		}
+	}
+	if len(estim) != 1 || estim[0] != vu {
+		run.Count("backlog-valset", fmt.Sprintf("estimation-offer=%v", estim))
+	}
+	rg := func(ids []uint64) string {
+		var out []string
+		for _, id := range ids {
+			out = append(out, emit.Pair(emit.ZU(id), emit.ZU(id)))
+		}
+		return emit.List(out)
+	}
+	run.Count("backlog-valset", "valset-update-behind>1000")
+	run.Case(fmt.Sprintf("C14.CCap %s 0 %d %s", emit.List(blocks), n+3, rg(relay)), len(relay) == 0, replay)
+	// non-vacuity: once the valset update is gone the later message is offered
+	if err := e.cons.DeleteJob(e.ctx, qn, vu); err != nil {
+		t.Fatal(err)
+	}
+	relay, _ = poll()
+	if len(relay) != 1 || relay[0] != m1 {
+		run.Violate("C14:relayable-message-withheld", fmt.Sprintf("after the valset update %d was removed message %d should be the offer of validator #0, got %v", vu, m1, relay), replay)
+	}
+	blocks = append(blocks, emit.Pair("1", fmt.Sprintf("(OpDelete %d)", vu)))
+	run.Case(fmt.Sprintf("C14.CCap %s 0 %d %s", emit.List(blocks), n+2, rg(relay)), len(relay) == 1, replay)
+}
